@@ -199,6 +199,27 @@ func c09Variants(ss []sym, m gramResult, f func(name, src string, cmIdx int)) {
 			f("extra newline where linebreak is admitted", render(v).src, -1)
 		}
 	}
+	// a comment before the newline INSIDE a multi-line substitution of a word (it is returned with the others, in order)
+	base := render(ss)
+	inC, before := false, 0
+	for i, s := range ss {
+		if i >= m.consumed {
+			break
+		}
+		switch {
+		case s.kind == kNL:
+			inC = false
+		case s.kind == kComment && !inC:
+			inC = true
+			before++
+		case s.kind == kWord && !inC && len(s.inner) == 0:
+			if k := strings.Index(s.text, "b\nc"); k >= 0 && (strings.Contains(s.text, "$(") || strings.Contains(s.text, "`")) {
+				pos := base.start[i] + k + 1
+				f("comment before the newline inside "+s.text, base.src[:pos]+" #k"+base.src[pos:], before)
+			}
+		}
+		before += len(s.inner)
+	}
 }
 
 func c09Judge(base c09Ref, src string, cmIdx int, semantic bool) string {
